@@ -347,20 +347,24 @@ def main_check(plugin, tier, replay=None):
         head, body = c.lines[:1], c.lines[1:]
 
         def test(b):
-            cc = Case(head + b, c.meta)
+            cc = Case(head + b, {})
             return pred(cc)
         try:
             nb = ddmin(body, test, budget=40)
         except Exception:
             nb = body
-        return Case(head + nb, c.meta)
+        return Case(head + nb, {})
 
     reported = set()
     known_hits = []
     for (s, c, io, mo, mv) in mon_fail[:5]:
-        def still_fails(cc, s=s):
+        sig0 = mv[0].split("]")[0] if mv[0].startswith("[") else mv[0][:25]
+
+        def still_fails(cc, s=s, sig0=sig0):
             o, _ = run_driver_robust(s.impl_cmd, [cc], 60)
-            return bool(plugin.monitor(s.name, cc, o[0]))
+            if any("bad-op" in l for l in o[0]):
+                return False
+            return any(m.startswith(sig0) for m in plugin.monitor(s.name, cc, o[0]))
         small = shrink(s, c, still_fails)
         o, _ = run_driver_robust(s.impl_cmd, [small], 60)
         mv2 = plugin.monitor(s.name, small, o[0]) or mv
